@@ -149,6 +149,8 @@ pub struct Opts {
     pub build_despite_syntax_errors: bool,
     /// render every diagnostic with codespan (as the command line does)
     pub render: bool,
+    /// file-name rule (false = --no-lowercase-file-name)
+    pub lowercase: bool,
 }
 
 impl Opts {
@@ -157,6 +159,7 @@ impl Opts {
             mode,
             build_despite_syntax_errors: false,
             render: false,
+            lowercase: true,
         }
     }
 }
@@ -202,7 +205,8 @@ pub fn translate_with(
                 return t;
             }
         }
-        let ctx = BuildContext::prepare(type_map, FileNameRules::default(), opts.mode.handling())
+        let rules = FileNameRules { lowercase: opts.lowercase, ..FileNameRules::default() };
+        let ctx = BuildContext::prepare(type_map, rules, opts.mode.handling())
             .expect("build context");
         let mut diagnostics = Diagnostics::new();
         t.build_called = true;
